@@ -18,8 +18,8 @@
 (***************************************************************************)
 EXTENDS JsonCases, Json
 
-CONSTANTS Config,      \* "tokens" | "badtokens" | "strings": which symbol alphabet (cfg files cannot hold tuples)
-          MaxSyms
+CONSTANTS MaxTokens, MaxBad, MaxStrings,   \* bound (number of symbols) per alphabet; 0 switches an alphabet off
+          MaxEdits                          \* number of symbol edits applied to each base document (mode "edits")
 
 Str(q) == <<34>> \o q \o <<34>>
 \* { } [ ] , : "a" 1 -1 1.5 1e2 true null space
@@ -33,19 +33,45 @@ BadTokenSymbols == {<<91>>, <<93>>, <<44>>, <<32>>, <<116,114,117>>, WTrue, <<11
 StringSymbols == {<<34>>, <<92,92>>, <<92,34>>, <<92,110>>, <<92,47>>, <<92,120>>, <<92>>, <<92,117,100,56,51,100>>, <<92,117,100,101,48,48>>,
                   <<92,117,68,56,48,48>>, <<92,117,48,48,52,49>>, <<92,117,48,48>>, <<92,117,48,48,103,48>>, <<97>>, <<31>>, <<127>>, <<195,169>>, <<195>>, <<169>>,
                   <<237,160,128>>, <<226,130,172>>, <<240,159,152,128>>, <<244,144,128,128>>, <<192,175>>, <<239,191,189>>, <<32>>, <<58>>}
-Symbols == CASE Config = "tokens" -> TokenSymbols [] Config = "badtokens" -> BadTokenSymbols [] Config = "strings" -> StringSymbols
-WsSymbols == {<<32>>, <<10>>}
-Prefix == IF Config = "strings" THEN <<34>> ELSE <<>>
-CheckWs == Config # "strings"     \* in the strings configuration the space symbol is string content
+\* base documents (as symbol sequences) whose edit neighbourhoods are explored: every insertion, deletion and
+\* replacement of one structural symbol (missing/doubled/trailing commas, missing colons and values, unbalanced brackets ...)
+SComma == <<44>>  SColon == <<58>>  SA == Str(<<97>>)  S1 == <<49>>  SSp == <<32>>
+Bases == { <<<<91>>, S1, SComma, S1, <<93>>>>,                                                              \* [1,1]
+           <<<<123>>, SA, SColon, S1, SComma, SA, SColon, <<91>>, WTrue, <<93>>, <<125>>>>,                  \* {"a":1,"a":[true]}
+           <<<<91>>, <<91>>, <<93>>, SComma, <<123>>, <<125>>, <<93>>>>,                                    \* [[],{}]
+           <<<<123>>, SA, SColon, <<123>>, SA, SColon, WNull, <<125>>, <<125>>>>,                            \* {"a":{"a":null}}
+           <<SSp, <<91>>, SSp, SA, SSp, SComma, <<45,49>>, SSp, <<93>>, <<10>>>>,                            \* _[_"a"_,-1_]\n
+           <<<<91>>, <<49,46,53>>, SComma, <<49,101,50>>, SComma, WFalse, <<93>>>> }                         \* [1.5,1e2,false]
+EditSymbols == {<<91>>, <<93>>, <<123>>, <<125>>, SComma, SColon, SA, S1, SSp, WNull}
+Edited(q) == {[i \in 1..(Len(q) + 1) |-> IF i < k THEN q[i] ELSE IF i = k THEN e ELSE q[i - 1]] : k \in 1..(Len(q) + 1), e \in EditSymbols}   \* insert
+             \cup {[i \in 1..(Len(q) - 1) |-> IF i < k THEN q[i] ELSE q[i + 1]] : k \in 1..Len(q)}                                            \* delete
+             \cup {[q EXCEPT ![k] = e] : k \in 1..Len(q), e \in EditSymbols}                                                                  \* replace
+RECURSIVE Flatten(_, _, _)
+Flatten(q, i, skipWs) == IF i > Len(q) THEN <<>>
+                         ELSE (IF skipWs /\ q[i] \in {<<32>>, <<10>>} THEN <<>> ELSE q[i]) \o Flatten(q, i + 1, skipWs)
 
-VARIABLES s, nows, n
-vars == <<s, nows, n>>
-Init == s = Prefix /\ nows = Prefix /\ n = 0
-Next == /\ n < MaxSyms
-        /\ \E y \in Symbols : /\ s' = s \o y
-                              /\ nows' = IF y \in WsSymbols THEN nows ELSE nows \o y
+Modes == (IF MaxTokens > 0 THEN {"tokens"} ELSE {}) \cup (IF MaxBad > 0 THEN {"badtokens"} ELSE {}) \cup (IF MaxStrings > 0 THEN {"strings"} ELSE {})
+Symbols(m) == CASE m = "tokens" -> TokenSymbols [] m = "badtokens" -> BadTokenSymbols [] m = "strings" -> StringSymbols
+MaxSyms(m) == CASE m = "tokens" -> MaxTokens [] m = "badtokens" -> MaxBad [] m = "strings" -> MaxStrings [] m = "edits" -> MaxEdits
+WsSymbols == {<<32>>, <<10>>}
+Prefix(m) == IF m = "strings" THEN <<34>> ELSE <<>>
+
+\* mode: which alphabet this string is drawn from (one initial state per alphabet, one per base document in mode "edits");
+\* syms: the symbol sequence of the document in mode "edits" (<<>> otherwise)
+VARIABLES mode, s, nows, n, syms
+vars == <<mode, s, nows, n, syms>>
+Init == \/ mode \in Modes /\ s = Prefix(mode) /\ nows = Prefix(mode) /\ n = 0 /\ syms = <<>>
+        \/ MaxEdits > 0 /\ mode = "edits" /\ n = 0 /\ syms \in Bases /\ s = Flatten(syms, 1, FALSE) /\ nows = Flatten(syms, 1, TRUE)
+Next == /\ n < MaxSyms(mode)
         /\ n' = n + 1
-View == s
+        /\ mode' = mode
+        /\ IF mode = "edits"
+           THEN \E q \in Edited(syms) : syms' = q /\ s' = Flatten(q, 1, FALSE) /\ nows' = Flatten(q, 1, TRUE)
+           ELSE /\ syms' = syms
+                /\ \E y \in Symbols(mode) : /\ s' = s \o y
+                                            /\ nows' = IF y \in WsSymbols THEN nows ELSE nows \o y
+View == <<mode, s>>
+CheckWs == mode # "strings"     \* in the strings alphabet the space symbol is string content
 
 Equivalence == LET g == ParseDoc(s) IN DecAccepts(s) = (g.ok /\ ~g.lone)
 SameTokens == DecAccepts(s) => DecRun(s).c = ParseDoc(s).c
